@@ -55,6 +55,13 @@ def run(tier, seed):
             continue
         # no training copies among the queries (they tie with the zero self-distance)
         items.append(scn)
+    # many queries on overlapping classes: the (rare) queries on which the optimum-path rule and the nearest-neighbour rule
+    # disagree are the ones that expose a prediction made in other units than the training costs
+    rng2 = random.Random(seed * 1000003 + 1100)
+    for i in range(90 if thorough else 30):
+        scn = S.random_float_scenario(rng2, metric=FAMILY[i % 5], n=12, nq=40, lattice=False, mode="metric", classes=4, dim=2, copies=False)
+        scn["reload_alts"] = True
+        items.append(scn)
     judged = []
     for scn in items:
         base, why = S.run_scenario(scn)
@@ -91,6 +98,7 @@ def run(tier, seed):
                     continue
                 s3 = copy.deepcopy(scn)
                 s3["metric"] = met
+                s3["reload"] = bool(scn.get("reload_alts")) or len(judged) % 3 == 1     # a third of the rescaled twins predict after save -> load into a fresh object
                 t3, why3 = S.run_scenario(s3, want_events=False)
                 if t3 is None:
                     rep.skip("family_member_" + str(why3[1])[:40])
@@ -113,7 +121,7 @@ def run(tier, seed):
         raise H.MachineryError("vacuous: only %d traces satisfy C11's tie-free hypothesis" % out.get("tiefree", 0))
     s0, t0 = judged[-1]
     rep.sample({"scenario": {k: (v if k not in ("Z", "D") else "...") for k, v in s0.items()}, "fin": t0["fin"], "perm": t0.get("perm"), "alt": t0.get("alt")})
-    rep.cov["rule"] = "each base run is paired with a run on the same samples in a random training order (un-permuted and compared inside TLC in one rank universe, hypothesis TieFreeAll evaluated by TLC) and, for the five Euclidean-family identifiers, with runs under the other four (compared when the rank matrices coincide)"
+    rep.cov["rule"] = "each base run is paired with a run on the same samples in a random training order (un-permuted and compared inside TLC in one rank universe, hypothesis TieFreeAll evaluated by TLC) and, for the five Euclidean-family identifiers, with runs under the other four (compared when the rank matrices coincide; a third of those twins predict after save/load into a freshly constructed object)"
     rep.assumptions = ["TLC", "order embedding exact", "tie-freeness (training and query distances pairwise distinct and non-zero) is decided on the rank matrix before the outcome is compared"]
     return rep.finish()
 
